@@ -44,7 +44,16 @@ func (f *Fmakunbound) Call(s *slip.Scope, args slip.List, depth int) slip.Object
 	if !ok {
 		slip.TypePanic(s, depth, "symbol", args[0], "symbol")
 	}
-	slip.CurrentPackage.Undefine(string(sym))
+	// A package qualified name (pkg:name, pkg::name) designates the function
+	// a call of that name reaches: an exported function of pkg with one colon,
+	// any function of pkg with two.
+	if pkg, name, _ := slip.UnpackName(string(sym)); pkg != nil {
+		if slip.FindFunc(string(sym)) != nil {
+			pkg.Undefine(name)
+		}
+	} else {
+		slip.CurrentPackage.Undefine(name)
+	}
 
 	return sym
 }
